@@ -343,7 +343,7 @@ theorem slot_file_rec {r : Raw} (hinv : Inv r) (v : Vol) (fsL : List LRec) (ch :
   subst hzf
   have hclean : x.1.getD 0 0 / 16 = 3 → MasterClean (unitAt r (le16 x.1 0x11)) := by
     intro h3'
-    rcases hroot.slots x hxm with h0 | ⟨_, _, hcl⟩
+    rcases (hroot.slots x hxm).file (by omega) with h0 | ⟨_, _, hcl⟩
     · rw [h0] at h3'; simp at h3'
     · exact hcl h3'
   refine ⟨f, hrf, ?_, readFile_owned r (hdrTotal r) x.1 [] f hrf hst hclean, hkey⟩
